@@ -428,6 +428,7 @@ func main() {
 	logAppendCases(thorough)
 	controlCases(thorough)
 	earlyCloseCases()
+	readVsCases(thorough)
 	expiredCases(r, thorough)
 	readerCases(r, thorough)
 }
